@@ -4,4 +4,5 @@ pub mod c11;
 pub mod cli;
 pub mod cli2;
 pub mod cli3;
+pub mod hooks;
 pub mod place;
